@@ -3,6 +3,7 @@ package main
 import (
 	"fmt"
 	"go/token"
+	"go/types"
 	"strings"
 
 	"golang.org/x/tools/go/ssa"
@@ -286,6 +287,8 @@ func runC06(c *Ctx) {
 		c.verdict(c.fnKey(f)+":key-fields", f.Pos(), src["b"] && src["e"] && src["blobURL"], "key hashes blob URL, begin and end", fmt.Sprintf("cache key does not cover blob URL, begin and end (has %v)", sortedKeys(src)))
 	}
 
+	runC06extra(c)
+
 	// ---------- C06.i ----------
 	c.clause("C06.i", "T5", "the fetcher's HTTP status table: 200 whole body, 206 part(s), 403/400 one retry, everything else is an error", 1)
 	if f := c.mustFn(rp, "(*httpFetcher).fetch"); f != nil {
@@ -329,4 +332,234 @@ func runC06(c *Ctx) {
 		// 200 ⇒ region {0, size-1} from Content-Length; single 206 ⇒ region from Content-Range
 	}
 	c.assume("singleflight.Group runs one fetch per key; io.CopyN returns an error on short input; mime/multipart yields parts with their own headers")
+}
+
+// unusedErrCalls lists value-mode calls in fns whose error result is never looked at
+// (no referrer of the call value / no Extract of the error component). Deferred and `go` calls are not listed.
+func unusedErrCalls(fns []*ssa.Function) []*ssa.Call {
+	var out []*ssa.Call
+	for _, f := range fns {
+		eachInstr(f, func(i ssa.Instruction) {
+			call, ok := i.(*ssa.Call)
+			if !ok {
+				return
+			}
+			sig := call.Call.Signature()
+			n := sig.Results().Len()
+			if n == 0 || !isErrorType(sig.Results().At(n-1).Type()) {
+				return
+			}
+			used := false
+			for _, r := range *call.Referrers() {
+				switch x := r.(type) {
+				case *ssa.DebugRef:
+				case *ssa.Extract:
+					if x.Index == n-1 {
+						for _, rr := range *x.Referrers() {
+							if _, dbg := rr.(*ssa.DebugRef); !dbg {
+								used = true
+							}
+						}
+					}
+				default:
+					if n == 1 {
+						used = true
+					}
+				}
+			}
+			if !used {
+				out = append(out, call)
+			}
+		})
+	}
+	return out
+}
+
+func runC06extra(c *Ctx) {
+	const rp = "fs/remote"
+	scope := append(c.pkgFuncs(rp), c.pkgFuncs("cache")...)
+
+	// ---------- C06.j ----------
+	c.clause("C06.j", "T11", "in fs/remote and cache the error of a first-party or data-moving call is never dropped; only cleanup calls (Abort, Close) may ignore theirs", 5)
+	dataMoving := map[string]bool{"io.CopyN": true, "io.ReadFull": true, "io.ReadAtLeast": true, "io.(ReaderAt).ReadAt": true, "io.(Reader).Read": true, "io.(Writer).Write": true, "io.(WriterAt).WriteAt": true}
+	isCleanup := func(call *ssa.Call) bool {
+		var name string
+		if call.Call.IsInvoke() {
+			name = call.Call.Method.Name()
+		} else if f := staticFn(call); f != nil {
+			name = f.Name()
+		}
+		return name == "Abort" || name == "Close"
+	}
+	dropped := map[*ssa.Call]bool{}
+	for _, call := range unusedErrCalls(scope) {
+		dropped[call] = true
+	}
+	for _, f := range scope {
+		eachInstr(f, func(i ssa.Instruction) {
+			call, ok := i.(*ssa.Call)
+			if !ok {
+				return
+			}
+			sig := call.Call.Signature()
+			n := sig.Results().Len()
+			if n == 0 || !isErrorType(sig.Results().At(n-1).Type()) {
+				return
+			}
+			id := calleeID(call)
+			fp := false
+			if o := calleeObj(call); o != nil && o.Pkg() != nil && isFirstParty(o.Pkg().Path()) {
+				fp = true
+			}
+			if !fp && !dataMoving[id] {
+				return
+			}
+			key := c.fnKey(f) + ":err-of:" + id
+			if !dropped[call] {
+				c.okTrivial(key, call.Pos(), "error result is consumed")
+				return
+			}
+			c.verdict(key, call.Pos(), isCleanup(call), "cleanup call; its error is intentionally ignored", "the error of "+id+" is dropped (assigned to a variable nobody reads, or not assigned): a failed fetch/copy is reported as success")
+		})
+	}
+
+	// ---------- C06.k ----------
+	c.clause("C06.k", "T9", "no append into a prefix of a slice whose tail is still read afterwards (in-place insert/delete on the region list and request lists must not clobber elements they later copy)", 4)
+	for _, f := range scope {
+		eachInstr(f, func(i ssa.Instruction) {
+			ap, ok := i.(*ssa.Call)
+			if !ok {
+				return
+			}
+			if b, ok := ap.Call.Value.(*ssa.Builtin); !ok || b.Name() != "append" {
+				return
+			}
+			pre, ok := stripConv(ap.Call.Args[0]).(*ssa.Slice)
+			if !ok || pre.High == nil {
+				return
+			}
+			if _, isSlice := pre.X.Type().Underlying().(*types.Slice); !isSlice {
+				return // reslice of an array pointer / string
+			}
+			baseKey := sliceVarKey(pre.X)
+			// cuts: stores that replace the slice variable
+			cut := newCuts()
+			if p, ok := loadOf(stripConv(pre.X)); ok {
+				k := addrKey(p)
+				eachInstr(f, func(j ssa.Instruction) {
+					if st, ok := j.(*ssa.Store); ok && k != "" && addrKey(st.Addr) == k {
+						cut.instrs[st] = true
+					}
+				})
+			}
+			good := true
+			var where ssa.Instruction
+			eachInstr(f, func(j ssa.Instruction) {
+				tail, ok := j.(*ssa.Slice)
+				if !ok || tail.Low == nil || tail == pre {
+					return
+				}
+				if stripConv(tail.X) != stripConv(pre.X) && (baseKey == "" || sliceVarKey(tail.X) != baseKey) {
+					return
+				}
+				for _, u := range *tail.Referrers() {
+					if _, dbg := u.(*ssa.DebugRef); dbg || u == ssa.Instruction(ap) {
+						continue
+					}
+					if hit, _ := reach(f, ap, isInstr(u), cut); hit != nil {
+						good = false
+						where = u
+					}
+				}
+			})
+			msg := "an element is appended into a prefix of the slice and the overwritten tail is read afterwards"
+			if where != nil {
+				msg += " (at " + c.pos(where.Pos()) + "): the following element is lost and the new one duplicated"
+			}
+			c.verdict(c.fnKey(f)+":prefix-append", ap.Pos(), good, "tail of the slice is consumed by this append itself or before it", msg)
+		})
+	}
+
+	clauseLRUPin(c, "C06.l")
+	clauseStreamPosition(c, "C06.m")
+}
+
+// sliceVarKey names the variable a slice value was loaded from ("" when it is not a load).
+func sliceVarKey(v ssa.Value) string {
+	if p, ok := loadOf(stripConv(v)); ok {
+		return addrKey(p)
+	}
+	return ""
+}
+
+// pinnedValueEscapes: a view of v (type assertion, Bytes(), bytes.NewReader, interface conversion) is stored into an
+// object that f returns, or returned itself.
+func pinnedValueEscapes(v ssa.Value, f *ssa.Function) bool {
+	seen := map[ssa.Value]bool{}
+	var work []ssa.Value
+	push := func(x ssa.Value) {
+		if x != nil && !seen[x] {
+			seen[x] = true
+			work = append(work, x)
+		}
+	}
+	push(v)
+	views := map[string]bool{"bytes.(*Buffer).Bytes": true, "bytes.NewReader": true, "bytes.NewBuffer": true, "io.NewSectionReader": true}
+	for len(work) > 0 {
+		x := work[0]
+		work = work[1:]
+		refs := x.Referrers()
+		if refs == nil {
+			continue
+		}
+		for _, r := range *refs {
+			switch y := r.(type) {
+			case *ssa.Return:
+				return true
+			case *ssa.TypeAssert:
+				push(y)
+			case *ssa.MakeInterface:
+				push(y)
+			case *ssa.ChangeInterface:
+				push(y)
+			case *ssa.ChangeType:
+				push(y)
+			case *ssa.Slice:
+				push(y)
+			case *ssa.Extract:
+				push(y)
+			case *ssa.UnOp:
+				// load of a spilled result variable (functions with defers return through locals)
+				if a, ok := x.(*ssa.Alloc); ok && !a.Heap && y.Op == token.MUL {
+					push(y)
+				}
+			case *ssa.Call:
+				if views[calleeID(y)] {
+					push(y)
+				}
+			case *ssa.Store:
+				if y.Val == x {
+					// the object whose field receives the view
+					switch a := y.Addr.(type) {
+					case *ssa.FieldAddr:
+						push(a.X)
+					case *ssa.Alloc:
+						push(a)
+					}
+				}
+			}
+		}
+	}
+	return false
+}
+
+func typeQNameOfRecvField(call *ssa.Call) string {
+	if len(call.Call.Args) > 0 {
+		if p, ok := loadOf(stripConv(call.Call.Args[0])); ok {
+			if fa, ok := p.(*ssa.FieldAddr); ok {
+				return fieldName(fa)
+			}
+		}
+	}
+	return "lru"
 }
